@@ -102,12 +102,12 @@ class Layout:
     def line_comment(self, text):
         st = self.off
         self.emit("//" + text)
-        self.comments.append({"line": True, "text": text, "start": st, "end": self.off})
+        self.comments.append({"line": True, "text": text, "start": st, "end": self.off, "part": len(self.parts) - 1})
 
     def block_comment(self, text):
         st = self.off
         self.emit("/*" + text + "*/")
-        self.comments.append({"line": False, "text": text, "start": st, "end": self.off})
+        self.comments.append({"line": False, "text": text, "start": st, "end": self.off, "part": len(self.parts) - 1})
 
     def newline(self):
         self.emit(self.eol)
@@ -259,7 +259,7 @@ def gen_scenario(rng, force=None):
                 ext_diags.append({"code": code, "start": a, "end": b, "msg": "ext%d" % i})
         ext = {"decline": False, "diags": ext_diags, "rules": decl}
     sc = {"src": src, "media": rng.choice(["ts", "ts", "js", "tsx"]), "rules": rules, "fw": fw, "lw": lw, "ext": ext,
-          "comments": L.comments, "first_token": L.first_token, "nls": L.nls, "debuggers": L.debuggers,
+          "parts": L.parts, "comments": L.comments, "first_token": L.first_token, "nls": L.nls, "debuggers": L.debuggers,
           "ext_diags": ext_diags if ext_mode == "some" else None, "decl": decl if ext_mode == "some" else None}
     return sc
 
@@ -296,7 +296,7 @@ def model_line(sc, builtin_codes, oracle=0):
         enc_list(sc["rules"], enc_str), enc_list(all_codes, enc_str),
         enc_list(leading, enc_comment), enc_list(sc["comments"], enc_comment),
         enc_list(sc["nls"], str), enc_list(rule_diags, enc_diag),
-        enc_opt(ext, lambda e: enc_list(e[0], enc_diag) + " " + enc_list(e[1], enc_str)),
+        ("0" if sc["ext"] is None else "1" if ext is None else "2 " + enc_list(ext[0], enc_diag) + " " + enc_list(ext[1], enc_str)),
         str(oracle)]
     return " ".join(parts)
 
